@@ -11,9 +11,12 @@ The theorems come in two forms: with the validity of the order returned by the m
 `validOrder_sound`, is evaluated by the driver on every correspondence case), and — suffix
 `_acyclic` — with that hypothesis PROVED (`Tfl.Poset.topoSort_valid`, Lemmas/TopoSort.lean) from
 `Acyclic cs` (no non-empty path `x → … → x` along the pairs; implied by any rank function, by
-`∀ c ∈ cs, c.1 < c.2`, and by `validOrder cs o = true` for any `o`). A cyclic pair set makes the
-real code raise or return an unconstrained order; the layers' `verify_hyperparameters` do not
-exclude it, so it is a hypothesis here.
+`∀ c ∈ cs, c.1 < c.2`, and by `validOrder cs o = true` for any `o`). A cyclic pair set makes
+`_topological_sort` raise or return an unconstrained order, so acyclicity is a hypothesis here.
+For the categorical layer it is discharged by construction since fix 66006cc: the constructors
+reject exactly the cyclic pair sets (`Tfl.C16.verifyCategorical_acyclic`), and
+`Tfl.C16.categoricalLayer_projection_total` (Props/C16.lean, which imports this module) combines
+that with `categorical_pairs_and_bounds_acyclic` for every accepted configuration.
 -/
 namespace Tfl.C06
 open Tfl Tfl.Poset Tfl.Linear
